@@ -163,8 +163,8 @@ func (d *Decoder) decodeNALUs(pkt *rtp.Packet) ([][]byte, error) {
 
 		d.fragmentsSize += len(pkt.Payload[2:])
 
-		if d.fragmentsSize > h264.MaxAccessUnitSize {
-			errSize := d.fragmentsSize
+		if (d.frameBufferSize + d.fragmentsSize) > h264.MaxAccessUnitSize {
+			errSize := d.frameBufferSize + d.fragmentsSize
 			d.resetFragments()
 			return nil, fmt.Errorf("NALU size (%d) is too big, maximum is %d",
 				errSize, h264.MaxAccessUnitSize)
